@@ -399,8 +399,9 @@ def run_check(pid, tier, jobs=None):
     )
     if exit_code == EXIT_ERROR:
         ev["coverage"]["harness_errors"] = errors[:20]
-    os.makedirs(os.path.join(VERIF, "evidence"), exist_ok=True)
-    json.dump(ev, open(os.path.join(VERIF, "evidence", "%s.json" % pid), "w"), indent=1, default=str)
+    evdir = os.environ.get("VERIF_EVIDENCE_DIR") or os.path.join(VERIF, "evidence")
+    os.makedirs(evdir, exist_ok=True)
+    json.dump(ev, open(os.path.join(evdir, "%s.json" % pid), "w"), indent=1, default=str)
     for l in out_lines:
         print(l)
     print("%s %s: instances=%d paths=%d queries=%d obligations=%d validated=%d solver=%.1fs wall=%.1fs exit=%d" % (
